@@ -13,4 +13,5 @@ import GeoVerif.Lemmas.C15
 import GeoVerif.Properties.C01
 import GeoVerif.Properties.C03
 import GeoVerif.Properties.C04
+import GeoVerif.Properties.C11
 import GeoVerif.Properties.C16
